@@ -234,7 +234,7 @@ def standard_check(spec, argv):
         if isinstance(obj, dict) and obj.get('case'):
             robj['case'] = obj['case']
         rp = vlib.write_replay(prop, 'extra-' + re.sub(r'\W+', '_', sig)[:40], robj)
-        violations.append((rp, '' if obj is not None else 'no-failing-input-found'))
+        violations.append((rp, 'no-failing-input-found' if (obj is None or (isinstance(obj, dict) and obj.get('no_failing_input'))) else ''))
 
     # ---- tie broken without a monitor failure: search, then report ------------------------------
     tie_broken = []
@@ -319,6 +319,9 @@ def standard_check(spec, argv):
         coq_build_seconds=round(b['seconds'], 1),
         coqchk=chk,
     )
+    for attr in ('ring_info', 'mem_info', 'extra_info'):
+        if getattr(spec, attr, None):
+            cov.setdefault('additional_correspondences', {})[attr] = getattr(spec, attr)
     vlib.write_evidence(prop, tier, seed, cov, spec.assumptions, time.time() - t0, len(violations))
     for rp, suffix in violations:
         print(('VIOLATION property=%s replay=%s %s' % (prop, rp, suffix)).rstrip())
